@@ -860,6 +860,19 @@ def set_method(I, s, name, args, kw):
         raise Unsupported('symmetric_difference')
     if name == 'copy':
         return PSet(s.items)
+    if name in ('difference_update', 'intersection_update'):
+        if I.ctx.guards:
+            raise _interp_mod().CannotConvert()
+        other = make_set(I, [x for a in args for x in I.iterate(a)])
+        keep = []
+        for x in s.items:
+            inside = I.ctx.branch(contains(I, other, x))
+            if inside == (name == 'intersection_update'):
+                keep.append(x)
+        s.items[:] = keep
+        s.version += 1
+        I.ctx.mutations += 1
+        return None
     if name == 'update':
         for x in list(I.iterate(args[0])):
             set_add(I, s, x)
@@ -1265,7 +1278,7 @@ def arith(I, op, a, b):
                 r = r * x
             return mk(r, k)
         raise Unsupported(f'arithmetic {type(op).__name__} on symbolic numbers')
-    strish = lambda v, k: k == 'str' or isinstance(v, JsonText)
+    strish = lambda v, k: k in ('str', 'atom') or isinstance(v, JsonText)
     if isinstance(op, ast.Add) and strish(a, ka) and strish(b, kb):
         return concat_str(I, [a, b])
     if isinstance(op, ast.Add) and isinstance(a, PList) and isinstance(b, PList):
